@@ -86,7 +86,7 @@ func runOne(req *Request) *TrialResult {
 	}
 	t := newT(c, req.Prop, req.Tier, req.Keep, req.Active)
 	if clog != nil {
-		c.sink = clog
+		c.SetSink(clog)
 	}
 	var run func(t *T)
 	if req.Kind == "probe" {
